@@ -1,6 +1,7 @@
 import Driver.Util
 import Driver.C13
 import AslModel.Model.SymLoc
+import AslModel.Model.SymLocObs
 import AslModel.Spec.LocScope
 /-! Driver mode `c13l`: one program with macro / loop constructs per request line (macro-local label spaces).
 
@@ -11,6 +12,9 @@ request : `<cs01> <nophex> <obs|-> tok*`
     harness inlines the body at every call), `r` REPT, `i` IRP, `n` IRPN, `c` IRPC, `w` WHILE; `glob` = `{GLOBALSYMBOLS}`;
     `n` = number of iterations
 answer  : `mout= merrs= mpasses= mstat= verdict= vwhy= swords= model=<eq|ne> spec=<ok|bad|na> why=`
+  * hyp/settled2/ref1/ref2/nofwd – the two sides of `C13_loc_refines` evaluated on this program: hypotheses hold (`ordinary`, no
+    `dynamic`), the table at the start of pass 2 is `settled`, rendered run = `LocScope.expand` in pass 1 / pass 2, no reference
+    precedes the label of its own body
   * model – `SymLoc.assembleL` = observation
   * spec  – `LocScope.expand` (labels of a body renamed per expansion / iteration) + `Scope.judge` on the observation;
     `why=bytes onlyshadow=<0|1> onlyfwd=<0|1>`: every differing word is a reference that precedes the definition the manual
@@ -40,38 +44,15 @@ partial def pT (inside : Bool) : List String → Option (List T × List String)
         let (rest, r1) ← pT inside r
         pure (T.op o :: rest, r1)
 
-instance : Inhabited SymLoc.Items := ⟨.nil⟩
-instance : Inhabited SymLoc.Item := ⟨.con false false 0 .nil⟩
-instance : Inhabited (LocScope.Items Sym.Op) := ⟨.nil⟩
-instance : Inhabited (LocScope.Item Sym.Op) := ⟨.con false false 0 .nil⟩
-
-mutual
-partial def toModelItem : T → SymLoc.Item
-  | .op o => .op o
-  | .con k g n b => .con (k = "w") g n (toModel b)
-partial def toModel : List T → SymLoc.Items
+/-- the program tree both readings are taken from (`Model/SymLocObs.lean`: `toModel`, `toSpec` - the functions
+`C13_loc_refines` speaks about) -/
+def toP : List T → SymLoc.PItems
   | [] => .nil
-  | t :: r => .cons (toModelItem t) (toModel r)
-end
+  | .op o :: r => .cons (.op o) (toP r)
+  | .con k g n b :: r => .cons (.con (k = "m") (k = "w") g n (toP b)) (toP r)
 
-def unqual (n : Name) : Option Name := if n.getLast? = some 93 then none else some n
-
-def toStmt (o : Sym.Op) : LocScope.Stmt Sym.Op :=
-  match o with
-  | .label n => { label := unqual n, ref := none, payload := o }
-  | .labelOnly n => { label := unqual n, ref := none, payload := o }
-  | .labelWord n r => { label := unqual n, ref := unqual r, payload := o }
-  | .use r => { label := none, ref := unqual r, payload := o }
-  | _ => { label := none, ref := none, payload := o }
-
-mutual
-partial def toSpecItem : T → LocScope.Item Sym.Op
-  | .op o => .stmt (toStmt o)
-  | .con k g n b => .con (k = "m") g n (toSpec b)
-partial def toSpec : List T → LocScope.Items Sym.Op
-  | [] => .nil
-  | t :: r => .cons (toSpecItem t) (toSpec r)
-end
+def toModel (ts : List T) : SymLoc.Items := (toP ts).toModel
+def toSpec (ts : List T) : LocScope.Items Sym.Op := (toP ts).toSpec true
 
 /-- the statement with the names the expansion gave it -/
 def rebuild (s : LocScope.Stmt Sym.Op) : Sym.Op :=
@@ -82,14 +63,7 @@ def rebuild (s : LocScope.Stmt Sym.Op) : Sym.Op :=
   | .use r => .use (s.ref.getD r)
   | o => o
 
-def isTmpName (n : Name) : Bool :=
-  match n with
-  | 36 :: 36 :: _ => true
-  | 46 :: _ => true
-  | 45 :: _ => true
-  | 43 :: _ => true
-  | 47 :: _ => true
-  | _ => false
+def isTmpName (n : Name) : Bool := SymLoc.isTmpName n
 
 /-- statements inside a construct that the spec of the local label spaces does not speak about: temporary symbols,
 sections, declarations, PUSHV/POPV, ENUM -/
@@ -145,7 +119,19 @@ def handle (line : String) : String :=
         | .reject w => w.replace " " "_"
         | .unspecified w => w.replace " " "_"
       let nfwd := (fwdFlags.filter id).length
-      let base := s!"mout={hexNats mout} merrs={showNums merrs} mpasses={fin.g.passNo} mstat={mstat} verdict={vs} vwhy={vwhy} swords={swords.length} shadow={shadow.length} locfwd={nfwd} spaces={fin.cnt}"
+      -- both sides of `C13_loc_refines` on this program: first pass (empty local table) and second pass (settled table)
+      let p := toP ts
+      let hyp := p.ordinary false && p.noHash && !dyn
+      let specSide := ex.map (fun x => (x.1.label, x.1.ref))
+      let s1 := SymLoc.initPassL st0 0
+      let s2 := SymLoc.initPassL (SymLoc.exitPassL (SymLoc.execItems p.toModel s1)) 0
+      let side (s : SymLoc.LSt) := ((SymLoc.traceItems p.toModel s).map (SymLoc.render (SymLoc.openedItems p.toModel s))).map
+        (fun x => (x.label, x.ref))
+      let ref1 := side s1 == specSide
+      let ref2 := side s2 == specSide
+      let set2 := SymLoc.settled p.toModel s2
+      let allfwd := ex.all (fun x => !x.2)
+      let base := s!"mout={hexNats mout} merrs={showNums merrs} mpasses={fin.g.passNo} mstat={mstat} verdict={vs} vwhy={vwhy} swords={swords.length} shadow={shadow.length} locfwd={nfwd} spaces={fin.cnt} hyp={if hyp then 1 else 0} settled2={if set2 then 1 else 0} ref1={if ref1 then 1 else 0} ref2={if ref2 then 1 else 0} nofwd={if allfwd then 1 else 0}"
       if obs = "-" then base else
       match obs.splitOn ";" with
       | [stat, bytes, errs] =>
